@@ -83,6 +83,9 @@ func init() {
 			a.theirDHWriters()
 			auth, _ := a.dataAuthFacts()
 			a.counterStoreGate("G.counter-store", auth)
+			// what a rejected message caused to be queued (an error reply) leaves with the same call and does not ride on
+			// the answer to a later genuine message: every return of the API functions drains the injection queue
+			a.c19Growth()
 		})
 }
 
@@ -96,6 +99,11 @@ var atomicExempt = []struct{ fn, what, srcPrefix, reason string }{
 	{"(*keyManagementContext).checkMessageCounter", "keyManagementContext.counterHistory", "newOtrConflictError:\"counter regressed\"", "find-or-add: a freshly added record has theirCounter 0 and deserializeUnsigned rejects a zero counter, so the rejecting return is only reachable for an existing record (no append happened)"},
 	{"(*Conversation).receiveUnit", "Conversation.theirInstanceTag", "(*Conversation).withInjectionsPlain", "the tag was adopted from fragments that were themselves well formed and carried valid tags (receiveFragment accepted them); the later failure concerns the reassembled payload, which is dispatched as a message of its own"},
 	{"(*Conversation).receiveTaggedPlaintext", "Conversation.whitespaceState", "(*Conversation).processWhitespaceTag", "not a rejection: the tagged plaintext is delivered together with the error of the failed AKE start"},
+}
+
+// atomicExemptPaths: for exemptions keyed on the aggregated exchange scratch state, the fields the review covered.
+var atomicExemptPaths = map[string][]string{
+	"(*Conversation).processRevealSig": {"Conversation.ake.theirPublicValue", "Conversation.ake.revealKey", "Conversation.ake.sigKey"},
 }
 
 func (a *An) c06Atomic() {
@@ -147,7 +155,24 @@ func (a *An) c06Atomic() {
 			exempt := -1
 			for i, e := range atomicExempt {
 				if e.fn == a.C.Name(a.C.owner(f)) && e.what == k.what && strings.HasPrefix(k.src, e.srcPrefix) {
-					exempt = i
+					// an exemption for exchange scratch state covers the reviewed fields only
+					covered := true
+					if only, limited := atomicExemptPaths[e.fn]; limited {
+						for _, p := range pl {
+							okp := false
+							for _, pre := range only {
+								if p == pre || strings.HasPrefix(p, pre+".") {
+									okp = true
+								}
+							}
+							if !okp {
+								covered = false
+							}
+						}
+					}
+					if covered {
+						exempt = i
+					}
 				}
 			}
 			what := "no write to " + k.what + " state before a rejecting return"
